@@ -206,6 +206,9 @@ def run(ctx) -> Report:
         "index renumbering before the final merge is the identity on these integrands (C10)",
         "CoordinateDerivativeIsOutermostChecker not lifted (inputs have coordinate derivatives outermost only)",
     ]
+    from ..memokey import memo_rule
+
+    memo_rule(ctx, rep, "C15-key", ['ufl.algorithms.domain_analysis'])
     return rep
 
 
